@@ -299,7 +299,7 @@ func (r *Run) run() {
 	r.s.mainPath = r.path
 	r.s.Windows = r.plan.Profile == "conc"
 	r.s.YieldAtRUnlock = r.plan.Profile == "snap"
-	r.st = NewStores()
+	r.st = NewStores(r.plan.Schema)
 	if r.plan.Listeners {
 		registerListeners(r, StDepts, boltz.EntityStore[*Dept](r.st.Depts))
 		registerListeners(r, StPeople, boltz.EntityStore[*Person](r.st.People))
@@ -320,10 +320,12 @@ func (r *Run) run() {
 	closed := false
 	defer func() {
 		if !closed {
+			defer func() { _ = recover() }() // (a database that a failed restore left unusable was reported already)
 			_ = r.db.Close()
 		}
 	}()
 	err := r.db.Update(nil, func(ctx boltz.MutateContext) error {
+		// (required set-up: a set index refuses to work on a database whose index buckets were never initialised)
 		holder := boltz.ErrBucket(nil)
 		r.st.InitIndexes(ctx.Tx(), holder)
 		return holder.GetError()
@@ -408,9 +410,18 @@ func (r *Run) run() {
 	}
 	res.Violations = r.viols
 	closed = true
-	if err := r.db.Close(); err != nil && res.HarnessErr == "" {
-		res.HarnessErr = "close: " + err.Error()
-	}
+	func() {
+		defer func() {
+			// only a run that already reported the database unusable (a restore that went wrong) gets here with a
+			// handle that cannot be closed
+			if p := recover(); p != nil && len(r.viols) == 0 {
+				panic(p)
+			}
+		}()
+		if err := r.db.Close(); err != nil && res.HarnessErr == "" {
+			res.HarnessErr = "close: " + err.Error()
+		}
+	}()
 }
 
 func (r *Run) hasOwn() bool {
@@ -642,7 +653,7 @@ func (r *Run) onQuiescent() {
 		}
 	}
 	var found []Violation
-	err := r.db.View(func(tx *bbolt.Tx) error {
+	err := viewGuarded(r.db, func(tx *bbolt.Tx) error {
 		d := TakeDump(tx)
 		if !anyCommitted {
 			if d.Hash != last.Hash {
@@ -1043,7 +1054,12 @@ func (r *Run) execOp(a *attempt, ctx boltz.MutateContext, i int, op Op) error {
 		r.mu.Lock()
 		a.commits = append(a.commits, tag)
 		r.mu.Unlock()
-		ctx.AddCommitAction(func() {
+		actx := ctx
+		if op.TxCtx {
+			// a context of its own over the running transaction: its commit actions hang on the same commit
+			actx = boltz.NewTxMutateContext(context.Background(), ctx.Tx())
+		}
+		actx.AddCommitAction(func() {
 			defer r.s.AsyncDone()
 			r.s.AsyncEnter("async:commit:" + tag)
 			r.mu.Lock()
@@ -1066,7 +1082,12 @@ func (r *Run) execOp(a *attempt, ctx boltz.MutateContext, i int, op Op) error {
 	}
 	if op.Nested {
 		// the documented join path: Db.Update on a context that is already bound to a transaction just runs fn
-		nerr := r.db.Update(ctx, func(ctx boltz.MutateContext) error {
+		nctx := ctx
+		if op.TxCtx {
+			nctx = boltz.NewTxMutateContext(context.Background(), ctx.Tx()) // an ordinary context of its own
+			opx.Sys = op.Sys
+		}
+		nerr := r.db.Update(nctx, func(ctx boltz.MutateContext) error {
 			res, pv = safeExecOp(r.st, ctx, opx)
 			return res.err
 		})
@@ -1340,4 +1361,22 @@ func safeExecOp(st *Stores, ctx boltz.MutateContext, op Op) (res execResult, pan
 		}
 	}()
 	return ExecOp(st, ctx, op), nil
+}
+
+// viewGuarded runs a read transaction of the harness. A panic raised inside the library (e.g. the database handle
+// is gone after a restore went wrong) comes back as an error; a panic of harness code stays a panic.
+func viewGuarded(db *boltz.DbImpl, fn func(tx *bbolt.Tx) error) (err error) {
+	defer func() {
+		if p := recover(); p != nil {
+			switch p.(type) {
+			case abortSig, injectedPanic:
+				panic(p)
+			}
+			if !libraryPanic() {
+				panic(p)
+			}
+			err = fmt.Errorf("the read transaction panicked inside the library: %v", p)
+		}
+	}()
+	return db.View(fn)
 }
